@@ -423,7 +423,7 @@ def _scenarios(nex, n_sched):
 def subchecks(tier):
     if tier == "quick":
         return [Sub("scenarios", _scenarios(500, 4), shards=14)]
-    return [Sub("scenarios", _scenarios(6000, 12), shards=16)]
+    return [Sub("scenarios", _scenarios(30000, 12), shards=16)]
 
 
 def replay(case):
